@@ -193,6 +193,23 @@ def run_unit(unit, mode, vacuity=False, seed=None):
     return res
 
 
+def map_funcs(funcs, extracted):
+    """verus function name -> extracted function record (or None for shim / lemma functions)"""
+    out = {}
+    for f in extracted:
+        vn = f.get("verus_name", f["fn"])
+        qual = (f["id"].rsplit("::", 1)[0] + "::" + vn) if "::" in f["id"] else vn
+        cands = [n for n in funcs if n.endswith("::" + qual)]
+        if not cands:
+            # trait impls are printed as `impl&%k::name`: fall back to the last segment when it is unambiguous
+            same = [g for g in extracted if g.get("verus_name", g["fn"]) == vn]
+            if len(same) == 1:
+                cands = [n for n in funcs if n.split("::")[-1] == vn]
+        for n in cands:
+            out[n] = f
+    return out
+
+
 def scan_trusted(gen_path):
     """mechanical scan of a generated file for unproved assumptions"""
     txt = open(gen_path).read().split("\n")
@@ -431,7 +448,8 @@ def decide(pid, tier, seed, t0):
                 if not in_cone(f["tags"]):
                     continue
                 vac_total += 1
-                names = [n for n in r["funcs"] if n.endswith("::" + f["fn"])]
+                fm = map_funcs(r["funcs"], extracted)
+                names = [n for n, g in fm.items() if g["id"] == f["id"]]
                 if names and all(not r["funcs"][n]["success"] for n in names):
                     vac_ok += 1
                 else:
@@ -461,17 +479,17 @@ def decide(pid, tier, seed, t0):
                     dropped.append("%s:%d %s -> %s" % (f["file"], rw["src_line"], rw["rule"], rw["to"]))
         # obligations = verified + failed queries of functions in the cone (extracted tagged fns, plus every
         # proof/lemma/shim wrapper function of the unit: they ground the contracts)
-        extracted_names = {f["fn"]: f for f in extracted}
+        fm = map_funcs(r["funcs"], extracted)
         bad_fns = {f["fn"] for f in r["fails"] if in_cone(f["tags"]) and not f["message"].startswith("recommendation")}
         bad_fns |= {rl.get("fn") for rl in r["rlimits"]}
         for name, fr in r["funcs"].items():
-            short = name.split("::")[-1]
-            if short in extracted_names and extracted_names[short]["id"] not in rel_fn_ids:
+            ex = fm.get(name)
+            if ex is not None and ex["id"] not in rel_fn_ids:
                 continue
             obligations += 1
             # a query counts as discharged for this property when no failed obligation carrying the
             # property's tag lies in it (other properties' clauses are reported by their own checks)
-            if fr["success"] or (short in extracted_names and extracted_names[short]["id"] not in bad_fns):
+            if fr["success"] or (ex is not None and ex["id"] not in bad_fns):
                 discharged += 1
         # count spec clauses carrying this property's tag (finer-grained than queries; reported separately)
         for ln in open(r["gen"]).read().split("\n"):
